@@ -2,7 +2,8 @@ import python_minifier.ast_compat as ast
 
 
 def remove_posargs(node):
-    if isinstance(node, ast.arguments) and hasattr(node, 'posonlyargs'):
+    if isinstance(node, ast.arguments) and hasattr(node, 'posonlyargs') and node.kwarg is None:
+        # With **kwargs a keyword argument may share its name with a positional-only parameter, so the '/' is significant
         node.args = node.posonlyargs + node.args
         node.posonlyargs = []
 
